@@ -43,3 +43,8 @@ package actionlint
 //@ func (*RuleExpression).checkWorkflowCall
 //@   loop "range c.Inputs":
 //@     body_calls [C14] (*String).IsExpressionAssigned iff m != nil && ok && mi != nil && !istype(mi.Type, "AnyType") && len(ts) == 1
+
+// C14: the outputs of a call whose callee is known are exactly the declared ones (a strict object);
+// only an unknown callee gives the open map type
+//@ func (*RuleExpression).getWorkflowCallOutputsType
+//@   at_return [C14] m != nil && err == nil ==> result.Mapped == nil
